@@ -35,6 +35,7 @@ type JDam struct {
 	Off   []int  `json:"off,omitempty"`
 	Bits  []int  `json:"bits,omitempty"`
 	Count int    `json:"count,omitempty"`
+	AtRec *int   `json:"atrec,omitempty"` // flip/zero/trunc: offsets are taken relative to the first chunk header of this record (mod count), modulo 16
 }
 
 func recBytes(i, n int) []byte {
@@ -331,6 +332,16 @@ func runJournal(c *JCase) (st jStats, err error) {
 		return st, nil
 	}
 	// apply damage
+	if c.Damage.AtRec != nil && len(ext) > 0 {
+		base := ext[*c.Damage.AtRec%len(ext)].start
+		rel := append([]int(nil), c.Damage.Off...)
+		for i := range rel {
+			rel[i] = base + rel[i]%16
+		}
+		d := c.Damage
+		d.Off = rel
+		c = &JCase{Recs: c.Recs, Damage: d}
+	}
 	dmg := append([]byte(nil), stream...)
 	damagedBlock := map[int]bool{}
 	cut := -1
@@ -578,6 +589,16 @@ func drawJCase(t *rapid.T) *JCase {
 		c.Damage.Kind = "zero"
 		c.Damage.Off = []int{offGen.Draw(t, "zo")}
 		c.Damage.Count = rapid.SampledFrom([]int{1, 7, 8, 100, jBlock}).Draw(t, "zn")
+	}
+	if c.Damage.Kind != "none" && len(c.Recs) > 0 && rapid.IntRange(0, 2).Draw(t, "atrec") == 0 {
+		// aim at the chunk header of a record (offsets 0-15 from its first byte)
+		r := rapid.IntRange(0, len(c.Recs)-1).Draw(t, "atrecn")
+		c.Damage.AtRec = &r
+		if rapid.Bool().Draw(t, "atrec0") {
+			for i := range c.Damage.Off {
+				c.Damage.Off[i] = i * 3 // 0, 3, 6: checksum, checksum, type byte
+			}
+		}
 	}
 	return c
 }
